@@ -14,6 +14,8 @@
     `cap = len`, every slice in the bit containers comes from `make([]T, n)`).
   * `rev32` / `tz32`: `bits.Reverse32` / `bits.TrailingZeros32` by their specification on the
     low 32 bits.
+  * `floatToInt`: `int(<float64>)`; float64 arithmetic inside an integer kernel is translated to Lean `Float`
+    (IEEE binary64), about which nothing can be proved: the kernel keeps a definition and its theorem fails by name.
   Core Lean only.
 -/
 import Gzx.GoM
@@ -53,5 +55,8 @@ def ctz : Nat → Nat → Nat
 
 /-- `bits.TrailingZeros32` (32 for 0) -/
 def tz32 (a : Int) : Int := (ctz 32 a.toNat : Nat)
+
+/-- `int(f)` of a float64 (truncation toward zero; Go leaves values outside int64 implementation-defined) -/
+def floatToInt (f : Float) : Int := f.toInt64.toInt
 
 end Gzx.GoM
